@@ -707,7 +707,7 @@ def r27_sum_f32(text, base_line=0):
 def r28_as_f32(text, base_line=0):
     """R28: `E as f32` (E = a path of field accesses / `.len()` calls) -> `usize_as_f32(E)` (opaque conversion)"""
     log = []
-    pat = re.compile(r"(\b\w+(?:\.\w+(?:\(\))?)*)\s+as\s+f32\b")
+    pat = re.compile(r"(\b\w+(?:\.\w+(?:\(\))?)*|\((?:[^()]|\([^()]*\))*\))\s+as\s+f32\b")
     for m in pat.finditer(text):
         log.append("R28 line %d: `%s` -> `usize_as_f32(%s)`" % (base_line + text.count("\n", 0, m.start()), m.group(0), m.group(1)))
     return pat.sub(lambda m: "usize_as_f32(%s)" % m.group(1), text), log
@@ -744,6 +744,121 @@ def r30_rev_take_collect(text, base_line=0):
         text = text[:m.start()] + new + text[m.end():]
 
 
+def r31_zip_map_sum(text, base_line=0):
+    """R31: `X.iter().zip(Y.iter()).map(|(A, B)| { BODY }).sum::<f32>()` -> `{ let mut __m: Vec<f32> = Vec::new(); for __q in 0..min(X.len(), Y.len())
+    { let (A, B) = (&X[__q], &Y[__q]); __m.push({ BODY }); } f32_sum(&__m) }`"""
+    log = []
+    pat = re.compile(r"(\w+)\s*\.iter\(\)\s*\.zip\((\w+)\.iter\(\)\)\s*\.map\(\s*\|\((\w+),\s*(\w+)\)\|\s*\{")
+    pos = 0
+    while True:
+        m = pat.search(text, pos)
+        if not m:
+            return text, log
+        x, y, a, b = m.groups()
+        bo = m.end() - 1
+        bc = _balanced(text, bo)
+        tail = re.match(r"\s*,?\s*\)\s*\.sum::<f32>\(\)", text[bc:])
+        if not tail:
+            pos = m.end()
+            continue
+        nl = text[m.start():bo].count("\n")
+        new = ("({ let mut __m: Vec<f32> = Vec::new(); for __q in 0..(if %s.len() < %s.len() { %s.len() } else { %s.len() }) { let (%s, %s) = (&%s[__q], &%s[__q]); __m.push("
+               % (x, y, x, y, a, b, x, y)) + "\n" * nl + text[bo:bc] + "); } f32_sum(&__m) })" + "\n" * tail.group(0).count("\n")
+        log.append("R31 line %d: `%s.iter().zip(%s.iter()).map(|(%s, %s)| {..}).sum::<f32>()` -> index loop collecting the closure values, then the opaque in-order sum"
+                   % (base_line + text.count("\n", 0, m.start()), x, y, a, b))
+        text = text[:m.start()] + new + text[bc + tail.end():]
+        pos = m.start() + 10
+
+
+def _chunk_loops(out, a, b, c, pa, pb, body):
+    """nested while loops that visit (A[k], B[k]) (or A[k]) exactly as `chunks(C)`, `zip` and an inner `iter().zip()` do; the chunk
+    size expression is evaluated once; a ghost arithmetic hint (erased) heads each outer iteration"""
+    pre = "let __cs: usize = %s; let mut __ci: usize = 0; " % c
+    hint = "proof { lemma_chunk_step(__ci as int, __cs as int); } "
+    if b is None:
+        return (pre + "while __ci * __cs < %s.len() { " % a + hint +
+                "let __ea = if (__ci + 1) * __cs < %s.len() { (__ci + 1) * __cs } else { %s.len() }; " % (a, a) +
+                "let mut __k: usize = __ci * __cs; while __k < __ea { let %s = &%s[__k]; %s.push(%s); __k = __k + 1; } __ci = __ci + 1; }" % (pa, a, out, body))
+    return (pre + "while __ci * __cs < %s.len() && __ci * __cs < %s.len() { " % (a, b) + hint +
+            "let __ea = if (__ci + 1) * __cs < %s.len() { (__ci + 1) * __cs } else { %s.len() }; " % (a, a) +
+            "let __eb = if (__ci + 1) * __cs < %s.len() { (__ci + 1) * __cs } else { %s.len() }; " % (b, b) +
+            "let mut __k: usize = __ci * __cs; while __k < __ea && __k < __eb { let (%s, %s) = (&%s[__k], &%s[__k]); %s.push(%s); __k = __k + 1; } __ci = __ci + 1; }"
+            % (pa, pb, a, b, out, body))
+
+
+def r32_chunked_zip_flat_map(text, base_line=0):
+    """R32: `let V: Vec<_> = A.par_chunks(C).zip(B.par_chunks(C)).flat_map(|(A2, B2)| { A2.iter().zip(B2.iter()).map(|(a, b)| { BODY }).collect::<Vec<_>>() }).collect();`
+    -> `let mut V = Vec::new();` + nested while loops over chunk index and position pushing `{ BODY }` (rayon's chunked, order-preserving flat_map: assumed = std's)"""
+    log = []
+    pat = re.compile(r"let\s+(\w+)\s*:\s*Vec<_>\s*=\s*(\w+)\s*\.par_chunks\((\w+)\)\s*\.zip\((\w+)\.par_chunks\(\3\)\)\s*\.flat_map\(\|\((\w+),\s*(\w+)\)\|\s*\{\s*\5\s*\.iter\(\)\s*\.zip\(\6\.iter\(\)\)\s*\.map\(\|\((\w+),\s*(\w+)\)\|\s*\{")
+    m = pat.search(text)
+    if not m:
+        return text, log
+    v, a, c, b, a2, b2, pa, pb = m.groups()
+    bo = m.end() - 1
+    bc = _balanced(text, bo)
+    tail = re.match(r"\s*\)\s*\.collect::<Vec<_>>\(\)\s*\}\s*\)\s*\.collect\(\);", text[bc:])
+    if not tail:
+        raise LostAnchor("R32: the collect tail does not follow the mapped closure")
+    nl = text[m.start():bo].count("\n")
+    new = "let mut %s = Vec::new(); " % v + "\n" * nl + _chunk_loops(v, a, b, c, pa, pb, text[bo:bc]) + "\n" * tail.group(0).count("\n")
+    log.append("R32 line %d: `%s.par_chunks(%s).zip(%s.par_chunks(%s)).flat_map(|(..)| {..iter().zip(..).map(|(%s, %s)| {..}).collect()}).collect()` -> nested index loops "
+               "(chunk index, position) pushing the closure value; rayon's order-preserving chunked flat_map assumed equal to std's"
+               % (base_line + text.count("\n", 0, m.start()), a, c, b, c, pa, pb))
+    return text[:m.start()] + new + text[bc + tail.end():], log
+
+
+def r34_chunked_flat_map(text, base_line=0):
+    """R34: tail expression `A.par_chunks(C).flat_map(|B| { B.iter().map(|a| EXPR).collect::<Vec<_>>() }).collect()` -> block with nested index loops"""
+    log = []
+    pat = re.compile(r"(\w+)\s*\.par_chunks\((\w+)\)\s*\.flat_map\(\|(\w+)\|\s*\{\s*\3\s*\.iter\(\)\s*\.map\(\|(\w+)\|\s*")
+    m = pat.search(text)
+    if not m:
+        return text, log
+    a, c, b2, pa = m.groups()
+    # EXPR runs to the `)` that closes `.map(`
+    k, depth = m.end(), 0
+    while k < len(text):
+        ch = text[k]
+        if ch in "([{":
+            depth += 1
+        elif ch in ")]}":
+            if depth == 0:
+                break
+            depth -= 1
+        k += 1
+    expr = text[m.end():k]
+    tail = re.match(r"\)\s*\.collect::<Vec<_>>\(\)\s*\}\s*\)\s*\.collect\(\)", text[k:])
+    if not tail:
+        raise LostAnchor("R34: the collect tail does not follow the mapped closure")
+    nl = text[m.start():k].count("\n") + tail.group(0).count("\n")
+    new = "{ let mut __out = Vec::new(); " + _chunk_loops("__out", a, None, c, pa, None, expr.strip()) + " __out }" + "\n" * nl
+    log.append("R34 line %d: `%s.par_chunks(%s).flat_map(|%s| {%s.iter().map(|%s| ..).collect()}).collect()` -> nested index loops pushing the closure value (order-preserving: assumed)"
+               % (base_line + text.count("\n", 0, m.start()), a, c, b2, b2, pa))
+    return text[:m.start()] + new + text[k + tail.end():], log
+
+
+def r33_unzip(text, base_line=0):
+    """R33: `let (P, Q): (Vec<_>, Vec<_>) = V.into_iter().unzip();` -> two pushes per element in an index loop (elements are `Copy` pairs)"""
+    log = []
+    pat = re.compile(r"let\s*\((\w+),\s*(\w+)\)\s*:\s*\(Vec<_>,\s*Vec<_>\)\s*=\s*(\w+)\.into_iter\(\)\.unzip\(\);")
+    m = pat.search(text)
+    if not m:
+        return text, log
+    p_, q_, v = m.groups()
+    new = "let mut %s = Vec::new(); let mut %s = Vec::new(); for __u in 0..%s.len() { %s.push(%s[__u].0); %s.push(%s[__u].1); }" % (p_, q_, v, p_, v, q_, v)
+    log.append("R33 line %d: `%s` -> `%s`" % (base_line + text.count("\n", 0, m.start()), m.group(0), new))
+    return text[:m.start()] + new + text[m.end():], log
+
+
+def r35_chunk_const(text, base_line=0):
+    """R35: the crate constant `_CHUNKS` -> opaque `chunk_size()` (any value 1..=4096: the result must not depend on it)"""
+    log = []
+    for m in re.finditer(r"\b_CHUNKS\b", text):
+        log.append("R35 line %d: `_CHUNKS` -> `chunk_size()`" % (base_line + text.count("\n", 0, m.start())))
+    return re.sub(r"\b_CHUNKS\b", "chunk_size()", text), log
+
+
 def r21_to_owned(text, base_line=0):
     """R21: `.to_owned()` -> `.clone()` (identical for a `Clone` type; vstd specifies `Clone`)"""
     log = []
@@ -761,9 +876,9 @@ REWRITES = {
     "R1": r1_compound_assign, "R2": r2_unary_minus, "R3": r3_scale_call, "R6": r6_for_with_continue,
     "R7": r7_isqrt, "R8": r8_step_by, "R9": r9_consts, "R10": r10_tail_continue,
     "R12": r12_enumerate, "R15": r15_iter, "R16": r16_map_index, "R17": r17_for_in_ref_vec, "R18": r18_assert_eq_shape,
-    "R19": r19_last_unwrap, "R20": r20_range_enumerate, "R21": r21_to_owned, "R22": r22_map_collect, "R23": r23_slice_iter, "R24": r24_name_wildcard_loop, "R25": r25_par_map_collect, "R26": r26_zip_iter_mut, "R27": r27_sum_f32, "R28": r28_as_f32, "R29": r29_consuming_for, "R30": r30_rev_take_collect, "R13": r13_panic_allowed, "R14": r14_panic_forbidden,
+    "R19": r19_last_unwrap, "R20": r20_range_enumerate, "R21": r21_to_owned, "R22": r22_map_collect, "R23": r23_slice_iter, "R24": r24_name_wildcard_loop, "R25": r25_par_map_collect, "R26": r26_zip_iter_mut, "R27": r27_sum_f32, "R28": r28_as_f32, "R29": r29_consuming_for, "R30": r30_rev_take_collect, "R31": r31_zip_map_sum, "R32": r32_chunked_zip_flat_map, "R33": r33_unzip, "R34": r34_chunked_flat_map, "R35": r35_chunk_const, "R13": r13_panic_allowed, "R14": r14_panic_forbidden,
 }
-ORDER = ["R18", "R13", "R14", "R16", "R25", "R26", "R29", "R30", "R27", "R28", "R20", "R22", "R23", "R24", "R12", "R15", "R17", "R19", "R21", "R10", "R8", "R6", "R9", "R7", "R3", "R1", "R2"]
+ORDER = ["R18", "R13", "R14", "R16", "R31", "R32", "R34", "R35", "R33", "R25", "R26", "R29", "R30", "R27", "R28", "R20", "R22", "R23", "R24", "R12", "R15", "R17", "R19", "R21", "R10", "R8", "R6", "R9", "R7", "R3", "R1", "R2"]
 
 
 def apply_rewrites(text, names, base_line):
